@@ -385,7 +385,12 @@ func (e *Engine) computeMods() {
 		changed = false
 		for _, fn := range fns {
 			mi := e.modCache[fn]
+			pureSpec := false
+			if sp := e.Specs.Funcs[fnKey(fn)]; sp != nil && sp.Pure {
+				pureSpec = true // writes no pre-existing memory: checked by the frame obligations of that function
+			}
 			add := func(set map[string]bool, n string) {
+
 				if !set[n] {
 					set[n] = true
 					changed = true
@@ -408,8 +413,10 @@ func (e *Engine) computeMods() {
 						ex = append(ex, a...)
 						fr = append(fr, b2...)
 					}
-					for _, n := range ex {
-						add(mi.Exist, n)
+					if !pureSpec {
+						for _, n := range ex {
+							add(mi.Exist, n)
+						}
 					}
 					for _, n := range fr {
 						add(mi.Fresh, n)
